@@ -11,7 +11,7 @@ import oracle as O
 
 STATE_KEYS = ["pos", "spos", "dm", "sdm", "feed", "power", "tool_on", "cool_on", "spin", "powerm", "cool", "swap",
               "halt", "toolnum", "em", "fm", "lu", "tu", "ku", "pl", "t_hotend", "t_bed", "t_chamber", "params",
-              "sparams"]
+              "sparams", "bounds"]
 
 
 def leak_of(before, step):
